@@ -90,9 +90,16 @@ SUPPORTED_QOP = (AUTH, AUTH_INT)
 ###############################################################################
 # doAuth
 #
+def _md5hex(val):
+    # Basic credentials arrive as text, Digest material as bytes
+    if isinstance(val, str):
+        val = val.encode('utf-8')
+    return md5(val).hexdigest()
+
+
 DIGEST_AUTH_ENCODERS = {
-    MD5: lambda val: md5(val).hexdigest(),
-    MD5_SESS: lambda val: md5(val).hexdigest(),
+    MD5: _md5hex,
+    MD5_SESS: _md5hex,
     SHA1: lambda val: sha1.new(val).hexdigest(),
 }
 
